@@ -116,13 +116,21 @@ def oracle_big(res, t, n, fill):
     if t == "BOOLEAN":
         es = bytes(b & 1 for b in es)
     v = (t, list(es))
-    obj = K.build_leaf(t, v[1])
-    enc = obj.encode()
     want = K.own_header(K.CODE[t], n * K.WIDTH[t]) + es
+    try:
+        obj = K.build_leaf(t, v[1])
+        enc = obj.encode()
+    except Exception as exc:  # noqa: BLE001
+        res.violate("encode-raises", f"{t} with {n} elements: encode() raised {type(exc).__name__}: {exc}", case)
+        return v, want
     if enc != want:
         res.violate("encode-not-E5", f"{t} with {n} elements: encode() differs from the E5 byte string", case, want[:8].hex(), enc[:8].hex())
-    fresh = K.VARCLS[t]()
-    pos = fresh.decode(enc)
+    try:
+        fresh = K.VARCLS[t]()
+        pos = fresh.decode(enc)
+    except Exception as exc:  # noqa: BLE001
+        res.violate("decode-raises", f"{t} with {n} elements: decode(encode(v)) raised {type(exc).__name__}: {exc}", case)
+        return v, enc
     if K.val_of_var(fresh) != v or pos != len(enc):
         res.violate("roundtrip-value", f"{t} with {n} elements does not round-trip", case, len(enc), pos)
     return v, enc
@@ -324,7 +332,7 @@ def main():
         prefix = rng.bytes(rng.below(6)) if rng.chance(1, 2) else b""
         nviol = len(res.violations)
         enc = oracle_roundtrip(res, s, v, prefix, sp)
-        if len(res.violations) > nviol and K.size_of(v) > 1:
+        if len(res.violations) > nviol and (K.size_of(v) > 1 or len(v[1]) > 1):
             # shrink the failing value for the report
             def fails(w, s=s):
                 r2 = hlib.Result(PROP, a.tier, a.seed)
@@ -518,15 +526,10 @@ def main():
     for t, n in sizes:
         if t in ("U2", "I8"):
             es = K.gen_elems(rng, t, n)
-            obj = K.build_leaf(t, es)
-            enc = obj.encode()
             v = (t, es)
-            if enc != K.own_encode(v):
-                res.violate("encode-not-E5", f"{t} x {n}: encode() differs from the E5 byte string", {"kind": "roundtrip", "struct": ["leaf", t, -1], "val": js(v), "prefix": ""})
-            fresh = K.VARCLS[t]()
-            pos = fresh.decode(enc)
-            if K.val_of_var(fresh) != v or pos != len(enc):
-                res.violate("roundtrip-value", f"{t} x {n} does not round-trip", {"kind": "roundtrip", "struct": ["leaf", t, -1], "val": js(v), "prefix": ""})
+            enc = oracle_roundtrip(res, ("leaf", t, -1), v, b"")
+            if enc is None:
+                continue
         else:
             v, enc = oracle_big(res, t, n, -1)
         import zlib
@@ -558,24 +561,37 @@ def main():
         lines.append(f"codec encsum ({t} *{n}:00)")
         answers.append("err ValueError")
     if big:
+        import zlib
+        # the Lean model recurses over payload lists (no tail calls): 1 000 000 elements is what the native driver handles comfortably;
+        # at 16 777 215 the implementation is checked by the oracle above and the model through its header function
         for t in ("B", "A"):
-            n = 16777215
-            import zlib
-            enc_body = bytes([0x41]) * n
-            enc = K.own_header(K.CODE[t], n) + enc_body
+            n = 1000000
+            body = bytes([0x41]) * n
+            enc = K.own_header(K.CODE[t], n) + body
             cases.append({"type": t, "n": n, "op": "enc"})
             lines.append(f"codec encsum ({t} *{n}:41)")
-            obj = K.build_leaf(t, [])
-            obj.value = bytearray(enc_body) if t == "B" else enc_body.decode("latin-1")
-            real = obj.encode()
-            answers.append(f"ok len={len(real)} adler={zlib.adler32(real)}")
-            if real != enc:
-                res.violate("encode-not-E5", f"{t} with 16777215 bytes: encode() differs from the E5 byte string", {"kind": "big", "type": t, "n": n, "fill": 0x41})
+
+            def big_enc(t=t, body=body):
+                obj = K.build_leaf(t, [])
+                obj.value = bytearray(body) if t == "B" else body.decode("latin-1")
+                real = obj.encode()
+                return f"len={len(real)} adler={zlib.adler32(real)}"
+            answers.append(K.impl(big_enc))
             cases.append({"type": t, "n": n, "op": "dec"})
             lines.append(f"codec decsum (leaf {t} -1) 0 x{enc[:4].hex()} *{n}:41")
-            fresh = K.VARCLS[t]()
-            pos = fresh.decode(enc)
-            answers.append(f"ok ({t} n={len(fresh.value)} adler={zlib.adler32(bytes(fresh.value) if t == 'B' else fresh.value.encode('latin-1'))}) pos={pos}")
+
+            def big_dec(t=t, enc=enc):
+                fresh = K.VARCLS[t]()
+                pos = fresh.decode(enc)
+                return f"({t} n={len(fresh.value)} adler={zlib.adler32(bytes(fresh.value) if t == 'B' else fresh.value.encode('latin-1'))}) pos={pos}"
+            answers.append(K.impl(big_dec))
+        for code in sorted(set(K.CODE.values())):
+            for ln in (16777215, 16777216):
+                obj = V.U1()
+                obj.format_code = code
+                cases.append({"code": code, "len": ln})
+                lines.append(f"codec hdr {code} {ln}")
+                answers.append(K.impl(lambda obj=obj, ln=ln: hlib.hexs(obj.encode_item_header(ln))))
     hlib.compare_batch(res, drv, "long payloads (digests) vs Model.Var / Spec.E5", cases, lines, answers)
     res.exhaustive_parts.append("all 256 byte values as B, A payload and as the 191 JIS-8 mapped characters; every length-byte boundary of the header for every format code")
 
